@@ -12,7 +12,8 @@ open Mido.Py
 /-- `Message.from_bytes` as the parser calls it: the model's decoder (tied to the source text by
     `src_decode_message`, C01/C02) -/
 def parserExt : ReaderExt Msg :=
-  { fromBytes := fun bs _ => decodeInts bs, mkSysex := fun _ _ => .error .Other, buildMeta := fun _ _ _ => .error .Other }
+  { fromBytes := fun bs _ => decodeInts bs, mkSysex := fun _ _ => .error .Other, buildMeta := fun _ _ _ => .error .Other,
+    isSysex := fun m => match m with | .sysex _ => true | _ => false }
 
 def PState.toSrc (p : PState) : Src.Parser Msg := { messages := p.queue, _tok := p.tok.toSrc }
 
